@@ -1,0 +1,9 @@
+//go:build !verif
+
+package badger
+
+import "github.com/dgraph-io/ristretto/v2/z"
+
+func (db *DB) verifDoWritesChoice(pendingCh chan struct{}, lc *z.Closer) (*request, int) {
+	return nil, 0
+}
